@@ -227,7 +227,7 @@ def hbulk (s : HSt) (a b : Nat) (f : Heap → Hdr → Hdr → Option (Heap × Hd
                      regs := s.regs.set a { oa with hdr := h', length := recount oa.kind oa.length H' h' } } "ok"
   | _, _ => .bad
 
-def hstep (grow : Nat → Nat → Nat) (s : HSt) : Op → HRes
+def hstep1 (grow : Nat → Nat → Nat) (s : HSt) : Op → HRes
   | .add r n =>
     match s.regs[r]? with
     | none => .bad
@@ -271,10 +271,23 @@ def hstep (grow : Nat → Nat → Nat) (s : HSt) : Op → HRes
     .ok s (showLayout (s.regs.map fun o => o.hdr.len) (overlapPairs (s.regs.map (·.hdr))))
   | op =>
     -- read-only for the word arrays: evaluated on the current views
-    match step s.abs op with
+    match step1 s.abs op with
     | .bad => .bad
     | .panic => .panic
     | .ok t out => .ok { s with iters := t.iters } out
+
+def hloopN (grow : Nat → Nat → Nat) (mk : Nat → Op) : (count : Nat) → HSt → (n d hits : Nat) → HRes
+  | 0, s, _, _, hits => .ok s (toString hits)
+  | c + 1, s, n, d, hits =>
+    match hstep1 grow s (mk n) with
+    | .ok s' out => hloopN grow mk c s' (n + d) d (if out = "true" then hits + 1 else hits)
+    | .bad => .bad
+    | .panic => .panic
+
+def hstep (grow : Nat → Nat → Nat) (s : HSt) : Op → HRes
+  | .addn r a d c => if c = 0 then .bad else hloopN grow (.add r) c s a d 0
+  | .removen r a d c => if c = 0 then .bad else hloopN grow (.remove r) c s a d 0
+  | op => hstep1 grow s op
 
 def hrunOps (grow : Nat → Nat → Nat) : Option HSt → List String → List String
   | _, [] => []
